@@ -67,18 +67,28 @@ func recvField(fn *ssa.Function, addr ssa.Value) (string, bool) {
 func effectOnPath(P *Program, fn *ssa.Function, pf pathFacts, ret *ssa.Return) *opEffect {
 	e := &opEffect{pf: pf, ret: ret, stored: map[string]ssa.Value{}, mapKeys: map[string][]ssa.Value{}}
 	e.lc = newLcPath(P, fn, pf)
+	callsAt := map[string]int{}
 	for _, b := range pf.blocks {
 		for _, in := range b.Instrs {
 			switch x := in.(type) {
 			case *ssa.Store:
 				if f, ok := recvField(fn, x.Addr); ok {
 					e.stored[f] = x.Val
+					callsAt[f] = len(e.calls)
 				}
 			case *ssa.UnOp:
 				if x.Op == token.MUL {
 					if f, ok := recvField(fn, x.X); ok {
-						if _, written := e.stored[f]; written {
-							e.readAfter = append(e.readAfter, f)
+						if val, written := e.stored[f]; written {
+							// the value just stored, unless a method of the receiver ran in between
+							if callsAt[f] == len(e.calls) {
+								if e.lc.fwd == nil {
+									e.lc.fwd = map[ssa.Value]ssa.Value{}
+								}
+								e.lc.fwd[x] = val
+							} else {
+								e.readAfter = append(e.readAfter, f)
+							}
 						}
 					}
 				}
